@@ -729,6 +729,11 @@ func wrapEntry(e *venum.E, a *vh.Args) {
 			inputs = append(inputs, sb[:n])
 		}
 		inputs = append(inputs, append(append([]byte{}, sb...), bytes.Repeat([]byte{0}, 64)...))
+		// every length from the bare prefix to a few bytes past prefix + tag, for every row of the live table (a row
+		// whose length bounds disagree with its offset is only seen at exactly one length)
+		for k := 1; k <= 70; k++ {
+			inputs = append(inputs, append(append([]byte{}, sb...), bytes.Repeat([]byte{0x5a}, k)...))
+		}
 	}
 	for i, in := range inputs {
 		for _, k := range keys {
@@ -736,7 +741,10 @@ func wrapEntry(e *venum.E, a *vh.Args) {
 			t := wts[pb.TransportType(k)]
 			id := fmt.Sprintf("wrap;transport=%s;input=%d(len %d)", t.Name(), i, len(in))
 			guard(e, "wrap-connection", id, func() {
-				_, _, err := t.WrapConnection(bytes.NewBuffer(append([]byte{}, in...)), &vfix.RecConn{}, phantom, rm)
+				// the buffer holds exactly what arrived in one read: capacity == length, nothing to over-read into
+				exact := make([]byte, len(in))
+				copy(exact, in)
+				_, _, err := t.WrapConnection(bytes.NewBuffer(exact), &vfix.RecConn{}, phantom, rm)
 				if err == nil {
 					e.Nontrivial(id)
 				}
